@@ -30,6 +30,7 @@ import (
 	"reflect"
 	"regexp"
 	"sort"
+	"strconv"
 	"strings"
 	"sync"
 	"testing"
@@ -1154,6 +1155,250 @@ func vValidate(t *testing.T, out *vOut, secrets []string) {
 	}
 }
 
+// vAfterUse: STATE.  Every configuration struct that holds opaque values is rendered (fmt verbs on the value and on
+// the pointer, Sprint, Errorf, json, confmap, zap) BEFORE and AFTER each consumer-building call is made on it —
+// ToClient (+ a request through the client), ToListener/ToServer, ToClientConn (+ a call), grpc ToServer,
+// LoadTLSConfig, Validate — cumulatively, on the same object.  A builder must not leave a plain copy of a secret
+// anywhere a rendering of the configuration reaches: the renderings after use are the renderings before use.
+func vAfterUse(t *testing.T, out *vOut, secrets []string) {
+	ctx := context.Background()
+	jenc := zapcore.NewJSONEncoder(zapcore.EncoderConfig{})
+	renderAll := func(ptr any) []string {
+		val := reflect.ValueOf(ptr).Elem().Interface()
+		var rs []string
+		rs = append(rs, fmt.Sprintf("%v", val), fmt.Sprintf("%v", ptr), fmt.Sprintf("%+v", val), fmt.Sprintf("%+v", ptr), fmt.Sprintf("%#v", val),
+			fmt.Sprintf("%s", ptr), fmt.Sprint(val), fmt.Errorf("cannot start exporter with config %+v: %w", ptr, errors.New("boom")).Error(),
+			fmt.Sprintf("%+v", []any{val}))
+		jb, _ := json.Marshal(val)
+		rs = append(rs, string(jb), vConfMarshal(val), vZapLine(jenc, zap.Any("cfg", val)), vZapLine(jenc, zap.Any("cfg", ptr)))
+		return rs
+	}
+	srv := httptest.NewServer(http.HandlerFunc(func(w http.ResponseWriter, _ *http.Request) { w.WriteHeader(204) }))
+	defer srv.Close()
+	gsrv := grpc.NewServer(grpc.UnknownServiceHandler(func(any, grpc.ServerStream) error { return nil }))
+	glis, err := net.Listen("tcp", "127.0.0.1:0")
+	if err != nil {
+		t.Fatal(err)
+	}
+	go func() { _ = gsrv.Serve(glis) }()
+	defer gsrv.Stop()
+	// a valid key pair: LoadTLSConfig succeeds, and the PEMs are the opaque values
+	key, _ := ecdsa.GenerateKey(elliptic.P256(), rand.Reader)
+	tmpl := &x509.Certificate{SerialNumber: big.NewInt(9), Subject: pkix.Name{CommonName: "verif-state"}, NotBefore: time.Now().Add(-time.Hour), NotAfter: time.Now().Add(time.Hour), IsCA: true, BasicConstraintsValid: true}
+	der, _ := x509.CreateCertificate(rand.Reader, tmpl, tmpl, &key.PublicKey, key)
+	kder, _ := x509.MarshalECPrivateKey(key)
+	certPem := string(pem.EncodeToMemory(&pem.Block{Type: "CERTIFICATE", Bytes: der}))
+	keyPem := string(pem.EncodeToMemory(&pem.Block{Type: "EC PRIVATE KEY", Bytes: kder}))
+	tlsCfg := configtls.Config{CAPem: configopaque.String(certPem), CertPem: configopaque.String(certPem), KeyPem: configopaque.String(keyPem)}
+	pemLine := func(p string) string {
+		if l := strings.Split(p, "\n"); len(l) > 2 {
+			return l[1]
+		}
+		return p
+	}
+	tlsPairs := [][2]string{{"ca_pem", pemLine(certPem)}, {"cert_pem", pemLine(certPem)}, {"key_pem", pemLine(keyPem)}}
+
+	type step struct {
+		code int
+		name string
+		do   func() error
+	}
+	type subject struct {
+		name  string
+		ptr   any
+		cfg   [][2]string
+		get   func() [][2]string // the opaque values as the struct holds them NOW, in the order of cfg
+		steps []step
+	}
+	fromMap := func(keys [][2]string, m func() map[string]configopaque.String) func() [][2]string {
+		return func() [][2]string {
+			var l [][2]string
+			for _, kv := range keys {
+				if v, ok := m()[kv[0]]; ok {
+					l = append(l, [2]string{kv[0], string(v)})
+				}
+			}
+			for k, v := range m() {
+				known := false
+				for _, kv := range keys {
+					known = known || kv[0] == k
+				}
+				if !known {
+					l = append(l, [2]string{k, string(v)})
+				}
+			}
+			return l
+		}
+	}
+	fromTLS := func(c func() configtls.Config) func() [][2]string {
+		return func() [][2]string {
+			// (one body line of each PEM stands for it: 64 bytes of key material are searched for, not the whole block)
+			return [][2]string{{"ca_pem", pemLine(string(c().CAPem))}, {"cert_pem", pemLine(string(c().CertPem))}, {"key_pem", pemLine(string(c().KeyPem))}}
+		}
+	}
+	var safe []string
+	for _, sec := range secrets {
+		if vHeaderSafe(sec) && vDistinctive(sec) && len(sec) < 200 {
+			safe = append(safe, sec)
+		}
+	}
+	rounds := 1
+	if vTier() == "thorough" {
+		rounds = 3
+	}
+	for r := 0; r < rounds && r+1 < len(safe); r++ {
+		hdr := [][2]string{{"Authorization", "Bearer " + safe[r]}, {"X-Api-Key", safe[r+1]}, {"x-signature-bin", safe[r]}}
+		mkHdr := func() map[string]configopaque.String {
+			m := map[string]configopaque.String{}
+			for _, kv := range hdr {
+				m[kv[0]] = configopaque.String(kv[1])
+			}
+			return m
+		}
+		var subjects []subject
+		{ // confighttp.ClientConfig
+			cc := confighttp.NewDefaultClientConfig()
+			cc.Endpoint = srv.URL
+			cc.Headers = mkHdr()
+			var cl *http.Client
+			subjects = append(subjects, subject{"confighttp.ClientConfig", &cc, hdr, fromMap(hdr, func() map[string]configopaque.String { return cc.Headers }), []step{
+				{8, "Validate", func() error { return cc.Validate() }},
+				{0, "ToClient", func() (err error) {
+					cl, err = cc.ToClient(ctx, componenttest.NewNopHost(), componenttest.NewNopTelemetrySettings())
+					return err
+				}},
+				{1, "request through the client", func() error {
+					req, _ := http.NewRequestWithContext(ctx, http.MethodGet, srv.URL, nil)
+					resp, err := cl.Do(req)
+					if err == nil {
+						resp.Body.Close()
+					}
+					return err
+				}},
+				{0, "ToClient again", func() error {
+					_, err := cc.ToClient(ctx, componenttest.NewNopHost(), componenttest.NewNopTelemetrySettings())
+					return err
+				}},
+			}})
+		}
+		{ // confighttp.ServerConfig with response headers and TLS PEMs
+			sc := confighttp.NewDefaultServerConfig()
+			sc.Endpoint = "127.0.0.1:0"
+			sc.ResponseHeaders = mkHdr()
+			sc.TLSSetting = &configtls.ServerConfig{Config: tlsCfg}
+			subjects = append(subjects, subject{"confighttp.ServerConfig", &sc, append(append([][2]string{}, hdr...), tlsPairs...), func() [][2]string {
+				return append(fromMap(hdr, func() map[string]configopaque.String { return sc.ResponseHeaders })(), fromTLS(func() configtls.Config { return sc.TLSSetting.Config })()...)
+			}, []step{
+				{2, "ToListener", func() error {
+					l, err := sc.ToListener(ctx)
+					if err == nil {
+						l.Close()
+					}
+					return err
+				}},
+				{2, "ToServer", func() error {
+					_, err := sc.ToServer(ctx, componenttest.NewNopHost(), componenttest.NewNopTelemetrySettings(), http.NotFoundHandler())
+					return err
+				}},
+			}})
+		}
+		{ // configgrpc.ClientConfig
+			gc := configgrpc.NewDefaultClientConfig()
+			gc.Endpoint = glis.Addr().String()
+			gc.TLSSetting = configtls.ClientConfig{Insecure: true}
+			gc.Headers = mkHdr()
+			var conn *grpc.ClientConn
+			subjects = append(subjects, subject{"configgrpc.ClientConfig", gc, hdr, fromMap(hdr, func() map[string]configopaque.String { return gc.Headers }), []step{
+				{8, "Validate", func() error { return gc.Validate() }},
+				{3, "ToClientConn", func() (err error) {
+					conn, err = gc.ToClientConn(ctx, componenttest.NewNopHost(), componenttest.NewNopTelemetrySettings())
+					return err
+				}},
+				{4, "unary call and stream", func() error {
+					cctx, cancel := context.WithTimeout(ctx, 30*time.Second)
+					defer cancel()
+					_ = conn.Invoke(cctx, "/verif.A/Unary", &emptypb.Empty{}, &emptypb.Empty{})
+					if st, err := conn.NewStream(cctx, &grpc.StreamDesc{StreamName: "S", ClientStreams: true, ServerStreams: true}, "/verif.A/S"); err == nil {
+						_ = st.CloseSend()
+						_ = st.RecvMsg(&emptypb.Empty{})
+					}
+					return conn.Close()
+				}},
+			}})
+		}
+		{ // configgrpc.ServerConfig with TLS PEMs
+			gs := configgrpc.NewDefaultServerConfig()
+			gs.NetAddr.Endpoint = "127.0.0.1:0"
+			gs.TLSSetting = &configtls.ServerConfig{Config: tlsCfg}
+			subjects = append(subjects, subject{"configgrpc.ServerConfig", gs, tlsPairs, fromTLS(func() configtls.Config { return gs.TLSSetting.Config }), []step{
+				{8, "Validate", func() error { return gs.Validate() }},
+				{5, "ToServer", func() error {
+					s, err := gs.ToServer(ctx, componenttest.NewNopHost(), componenttest.NewNopTelemetrySettings())
+					if err == nil {
+						s.Stop()
+					}
+					return err
+				}},
+			}})
+		}
+		{ // configtls client and server
+			tc := configtls.ClientConfig{Config: tlsCfg}
+			ts := configtls.ServerConfig{Config: tlsCfg, ClientCAFile: ""}
+			subjects = append(subjects,
+				subject{"configtls.ClientConfig", &tc, tlsPairs, fromTLS(func() configtls.Config { return tc.Config }), []step{
+					{8, "Validate", func() error { return tc.Validate() }},
+					{6, "LoadTLSConfig", func() error {
+						c, err := tc.LoadTLSConfig(ctx)
+						if err == nil && c != nil && c.GetClientCertificate != nil {
+							_, err = c.GetClientCertificate(&tls.CertificateRequestInfo{})
+						}
+						return err
+					}},
+				}},
+				subject{"configtls.ServerConfig", &ts, tlsPairs, fromTLS(func() configtls.Config { return ts.Config }), []step{
+					{7, "LoadTLSConfig", func() error {
+						c, err := ts.LoadTLSConfig(ctx)
+						if err == nil && c != nil && c.GetCertificate != nil {
+							_, err = c.GetCertificate(&tls.ClientHelloInfo{})
+						}
+						return err
+					}},
+				}})
+		}
+		for _, sb := range subjects {
+			before := renderAll(sb.ptr)
+			var done []string
+			for _, st := range sb.steps {
+				if err := st.do(); err != nil {
+					t.Fatalf("%s: %s: %v", sb.name, st.name, err)
+				}
+				done = append(done, strconv.Itoa(st.code))
+				after := renderAll(sb.ptr)
+				be, ae := make([]string, len(before)), make([]string, len(after))
+				for i := range before {
+					be[i], ae[i] = vEnc(before[i]), vEnc(after[i])
+				}
+				now := sb.get()
+				term := "CAfterUse [" + strings.Join(done, "; ") + "] " + vEncPairs(sb.cfg) + " " + vEncPairs(now) + " " + vList(be) + " " + vList(ae)
+				out.Case(true, term)
+				out.Stat("after_use_"+strings.ReplaceAll(sb.name, ".", "_"), 1)
+				if fmt.Sprint(now) != fmt.Sprint(sb.cfg) {
+					out.Oracle("use-does-not-yield-secret", term, fmt.Sprintf("consumer=%s after %s: the opaque values held by the configuration changed; cause=unexplained", sb.name, st.name))
+				}
+				// a value that a rendering shows after use although the same rendering did not show it before use
+				// (what a rendering shows independently of use is the business of the rendering oracles above)
+				for i := range after {
+					for _, kv := range sb.cfg {
+						if vReveals(after[i], kv[1]) != "" && vReveals(before[i], kv[1]) == "" {
+							vFailOracle(out, fmt.Sprintf("rendering #%d of %s after %s", i, sb.name, st.name), term, [][2]string{kv}, after[i])
+						}
+					}
+				}
+			}
+		}
+	}
+}
+
 // vTLSCA: the CA pool from ca_file / ca_pem: valid certificate, a PEM block that is no certificate, plain garbage
 func vTLSCA(t *testing.T, out *vOut) {
 	dir := t.TempDir()
@@ -1227,6 +1472,7 @@ func TestVerifC14E2E(t *testing.T) {
 	vTLSDecision(t, out)
 	vTLSCA(t, out)
 	vValidate(t, out, r.secrets)
+	vAfterUse(t, out, r.secrets)
 	vUseFailures(t, out, r.secrets)
 
 	// ---- decoding through confmap
